@@ -1,0 +1,24 @@
+//go:build verif
+
+package process
+
+import "sync/atomic"
+
+// VerifPoint is installed by the verification harness (build tag 'verif') to perturb
+// the goroutine schedule at the marked points. It is never set by Grits itself.
+var verifPointFn atomic.Pointer[func(int)]
+
+// SetVerifPoint installs (or, with nil, removes) the schedule perturbation callback.
+func SetVerifPoint(f func(int)) {
+	if f == nil {
+		verifPointFn.Store(nil)
+		return
+	}
+	verifPointFn.Store(&f)
+}
+
+func verifPoint(k int) {
+	if f := verifPointFn.Load(); f != nil {
+		(*f)(k)
+	}
+}
